@@ -59,7 +59,9 @@ pub fn boundary_packets_v3(tier: &str) -> Vec<v3::Packet> {
             v.push(publish_v3(1, target - 4 - 1, true));
         }
     }
-    v.extend(sweep_packets_v3());
+    if tier != "core" {
+        v.extend(sweep_packets_v3());
+    }
     v
 }
 /// length-prefixed fields of exactly 65,534 and 65,535 bytes, one field kind per packet
@@ -116,7 +118,9 @@ pub fn boundary_packets_v5(tier: &str) -> Vec<v5::Packet> {
         }
     }
     v.extend(prop_boundary_packets_v5());
-    v.extend(sweep_packets_v5());
+    if tier != "core" {
+        v.extend(sweep_packets_v5());
+    }
     v
 }
 
